@@ -4,7 +4,7 @@
    is the command's doing. Hashes are idealised as collision-free (free symbolic hashes `sym`; the generic
    statement takes injectivity of the content hash as a hypothesis). *)
 From Coq Require Import Relations.
-From Ruler Require Import Bytes AList RuleSyntax TopoSort World Work Build Ops Inv BuildSpec InvFacts Acts ActsFacts.
+From Ruler Require Import Bytes AList RuleSyntax TopoSort World Work Build Ops Inv BuildSpec InvFacts Acts ActsFacts C01Facts C02Keep C02Sym.
 
 (* At every state that satisfies the disk invariant — by C07 that is every state reached under any
    schedule, at any instant — every action of ruler itself keeps every protected content (the contents of
@@ -40,9 +40,18 @@ Theorem C08_literal_statement_refuted :
        protected_content sym_eqb paths w c -> protected_content sym_eqb paths w' c).
 Proof. exact c08_own_step_keeps_content_literal_refuted. Qed.
 
-(* Not proved (monitored on every history, schedule and crash point instead): the whole-build form
-   "contents before a build are a subset of contents after it" for deterministic commands, which needs
-   "a target present when its command runs already holds what the command writes". *)
+(* THE WHOLE-BUILD FORM (round 2; Proofs/C02Keep.v): every content that is in the cache or at a target of the plan
+   before a successful build whose commands write only their own targets is in the cache or at a target of the
+   plan after it — whatever is displaced (hand-edited targets, intermediate results replaced by a rebuild) went
+   into the cache first. (For a build that fails, and for what the user's command itself overwrites, the
+   per-action theorems above apply; monitored on every history, schedule and crash point as well.) *)
+Theorem C08_successful_build_keeps_every_content : forall (w : world sym) rp goal w1 tbl pack,
+  disk_inv sym_eqb SContent w -> init_dir sym w = Ok (w1, tbl) -> get_nodes sym w1 rp goal = Ok pack ->
+  Forall node_confined (p_nodes pack) ->
+  o_verdict (build sym_eqb SContent SList SRule w rp goal) = VOk ->
+  forall c, protected_content sym_eqb (plan_targets pack) w c ->
+            protected_content sym_eqb (plan_targets pack) (o_world (build sym_eqb SContent SList SRule w rp goal)) c.
+Proof. exact build_keeps_protected_sym. Qed.
 
 (* ------------------------------------------------------------------------------------------------------
    EVERY ACTION THE MODELLED BUILD AND CLEAN ACTUALLY PERFORM (Model/Acts.v), in the order they perform them: each
